@@ -4,7 +4,7 @@
 //! namespace with a tmpfs on /run (the check starts the harness under `unshare -m`).
 //!   pol <start_ns> <cfg_refid|-1> <n> { t_ns mode d_ns e_ns phc refid tag }*n
 //!     mode 1: tracking reply after d ns; 0: reply with a wrong sequence number; 2: garbage datagram;
-//!     3: no socket.  e: extra time until the grace period is evaluated.  phc -1: file absent.
+//!     3: no socket.  e: extra time until the grace period is evaluated.  phc -1: file absent, -2: a directory in its place (open succeeds, read fails).
 //! -> per iteration  D:<as_of_ns>:<phc>:<refid>:<tag> | NG | NR | PG | PF , then  ORDER:<ok|query-before-read@i>
 use crate::bound::mk_tracking;
 use crate::util::*;
@@ -72,7 +72,13 @@ fn apply_step(sh: &Shared, i: usize) {
     }
     if s.phc < 0 {
         let _ = std::fs::remove_file(&sh.phc_path);
+        let _ = std::fs::remove_dir(&sh.phc_path);
+        if s.phc == -2 {
+            // an attribute that can be opened but not read (read(2) on a directory fails with EISDIR)
+            let _ = std::fs::create_dir(&sh.phc_path);
+        }
     } else {
+        let _ = std::fs::remove_dir(&sh.phc_path);
         std::fs::write(&sh.phc_path, format!("{}\n", s.phc)).expect("phc file");
     }
 }
